@@ -3216,6 +3216,8 @@ class Value(WithArithmeticMethods, _protocols.ValueProtocol, _display.PrettyPrin
                 raise ValueError(
                     "Initializer value cannot have name set to None. Please pop() the value from initializers first to do so."
                 )
+            if value == "":
+                raise ValueError("Initializer value cannot have an empty string as its name.")
             graph = self._graph
             assert graph is not None
             if value in graph.initializers and graph.initializers[value] is not self:
